@@ -17,6 +17,7 @@ import ir
 from ir import walk, unwrap, show
 from framework import Check
 import c17
+import c11
 
 RANK = {'float': 1, 'double': 2, 'long double': 3}
 KERNELS = ('amgcl::backend::spmv_impl::apply', 'amgcl::backend::residual_impl::apply')
@@ -67,6 +68,28 @@ def rule_acc(ck, units):
                       f.full[:90], bad[0][1], f.where(bad[0][0]), bad[0][2], so))
 
 
+def rule_view(ck, units):
+    ck.rule('view-keeps-scalar', 'backend::reinterpret_as_rhs<MatrixValue>(vector): the block view of a scalar vector has the scalar type of the VECTOR (not of the matrix) - '
+                                 'a double vector viewed for a single-precision block matrix stays double', 2)
+    done = set()
+    for u in units.values():
+        for f in u.funcs:
+            if f.q != 'amgcl::backend::reinterpret_as_rhs_impl::get' or f.j.get('cret') is None:
+                continue
+            rt = u.type(f.j['cret'])
+            pt = u.type(f.decl(f.params[0]).get('ct')) if f.params else ''
+            sr, sp = scalar_of(rt), scalar_of(pt)
+            _, targs = c11.split_targs(f.clsfull or '')
+            sm = scalar_of(targs[0]) if targs else None
+            if sr is None or sp is None or sm is None or sm == sp:
+                continue      # only views across precisions tell the two candidates apart
+            key = 'reinterpret_as_rhs<%s matrix>(%s vector)' % (sm, sp)
+            if key in done:
+                continue
+            done.add(key)
+            ck.ob('view-keeps-scalar', key, f.where(), sr == sp, '' if sr == sp else 'in %s: a vector of %s is viewed as blocks of %s: the storage is reinterpreted in the precision of the matrix' % (f.full[:100], sp, sr))
+
+
 def main(tier):
     ck = Check('C13', tier, 'C13 (clauses): block adapter iterator consistency; accumulation precision of mixed-precision matrix-vector kernels.')
     T = os.path.join(ir.VERIF, 'tus')
@@ -76,5 +99,6 @@ def main(tier):
     ck.add_units(units, specs)
     c17.rule_D(ck, units)
     rule_acc(ck, units)
+    rule_view(ck, units)
     ck.assumptions += ['that block, complex-adapter, hybrid-backend and scalar formulations have the same entries / solutions, and that the mixed-precision solver reaches 1e-8, is numerical and NOT decided']
     return ck.finish()
